@@ -36,6 +36,7 @@ var (
 	c03pUnder      = sim.RegStat("probe:c03-descriptor-closed-underneath")
 	c03pNothing    = sim.RegStat("probe:c03-PollOne-with-nothing-ready")
 	c03pEintrWait  = sim.RegStat("probe:c03-blocking-wait-under-eintr")
+	c03pSibling    = sim.RegStat("probe:c03-timer-callback-cancelled-and-rearmed-a-sibling-timer")
 	c03pTwice      = sim.RegStat("probe:c03-interest-set-or-unset-twice")
 )
 
@@ -134,6 +135,17 @@ func (d *c03) armTimer(t *c03Timer) {
 	err := t.t.ScheduleOnce(dur, func() {
 		t.armed = false
 		d.cbRuns++
+		if len(d.timers) > 1 && !d.quiesce && d.w.Chance(1, 3) {
+			// a timer's callback cancels and re-arms a sibling - which may have expired in the same poll cycle, its
+			// entry still further down the batch
+			if sib := d.timers[d.w.Choose(len(d.timers))]; sib != t && !sib.closed {
+				d.w.Stat(c03pSibling)
+				if sib.t.Cancel() == nil {
+					sib.armed = false
+				}
+				d.armTimer(sib)
+			}
+		}
 	})
 	if err != nil {
 		// registration failed (injected): nothing is in flight
